@@ -328,6 +328,8 @@ class Box:
     T/l1/l2/outside/{canary.txt,sub/canary.txt}
     T/l1/l2/cwd/{canary.txt,a}          process working directory while open
     T/l1/l2/<name>/                     the permitted directory
+    T/l1/l2/<name>-private/{canary.txt} a sibling whose name merely starts
+                                        with the permitted directory's name
     """
 
     def __init__(self, permitted_name: bytes = b'root'):
@@ -341,6 +343,7 @@ class Box:
         self.base = self.top + b'/l1/l2'
         self.permitted = self.base + b'/' + permitted_name
         self.outside = self.base + b'/outside'
+        self.sibling = self.permitted + b'-private'
         self.cwd = self.base + b'/cwd'
         self.armed = False
         self.busy = False
@@ -353,10 +356,11 @@ class Box:
 
         os.makedirs(self.permitted)
         os.makedirs(self.outside + b'/sub')
+        os.makedirs(self.sibling)
         os.makedirs(self.cwd)
 
         for d in (self.top, self.top + b'/l1', self.base, self.outside,
-                  self.outside + b'/sub', self.cwd):
+                  self.outside + b'/sub', self.sibling, self.cwd):
             p = d + b'/canary.txt'
 
             with open(p, 'wb') as f:
